@@ -99,9 +99,12 @@ def handle (op : String) (args : List String) (impl : String) : Option Verdict :
       let mems := implItems.map fun it => ((it.splitOn "=").getD 1 "-")
       let nonEmpty := mems.all (· ≠ "-")
       let distinct := sids.eraseDups.length == sids.length
+      -- every session id is `<message id>-<decimal batch position>`
+      let wellFormed := sids.all fun sid =>
+        sid.startsWith (msgId ++ "-") && ((sid.drop (msgId.length + 1)).toString.toNat?).isSome
       let allIdx := (mems.filterMap natList).flatten
       let part := allIdx.mergeSort == (pending tg (psx.map (·.1))).map (·.1)
-      return ⟨m, nonEmpty && distinct && part && impl != "err", s!"exec:signed={min (signed msgId bs).length 3}"⟩
+      return ⟨m, nonEmpty && distinct && wellFormed && part && impl != "err", s!"exec:signed={min (signed msgId bs).length 3}"⟩
   -- the ids the EVM signing processes actually RUN under (real NewSigning + real coordinator; op shared with C19):
   -- `<messageID>-<batch index>` for every non-empty batch, pairwise distinct
   | "sigsession", [cap, tg, msgId, ps] => some <| Id.run do
